@@ -48,6 +48,7 @@ def parseStmt (locked : Bool) (s : String) : Option Stmt :=
   | 'A' => match nats tl with | some [t, c] => some (commentStmt t c) | _ => none
   | 'O' => match nats tl with | some [t, c] => some (replaceTable t c) | _ => none
   | 'Z' => some nopStmt
+  | 'Q' => some nopStmt        -- conn.close(): no engine call the model knows; other sessions are not affected
   | 'R' => tl.toNat?.map selectStmt
   | 'W' => tl.toNat?.map showStmt
   | 'G' => match nats tl with | some (t :: r) => some (mergeStmt t (pairs r)) | _ => none
